@@ -433,6 +433,7 @@ Section AnyPeer2.
     | OIdentNonCfg => [pad8 [STD_IDENT_NON_CONFIGURED]]
     | OFastScan => []
     | OInject _ _ => []
+    | ONet => []
     end.
 
   Definition op_in_range (o : lss_op) : Prop :=
@@ -449,6 +450,7 @@ Section AnyPeer2.
     | OIdentNonCfg => True
     | OFastScan => False
     | OInject _ _ => False
+    | ONet => False
     end.
 
   Lemma send_configure_sent (st : M) cs v1 v2 : u8 cs -> u8 v1 -> u8 v2 ->
@@ -502,6 +504,7 @@ Section AnyPeer2.
       rewrite !send_command_sent. rewrite <- !app_assoc. reflexivity.
     - (* identify non-configured remote slave *)
       unfold identify_non_configured. rewrite sbind_keep by reflexivity. apply send_command_sent.
+    - contradiction.
     - contradiction.
     - contradiction.
   Qed.
